@@ -801,6 +801,44 @@ W_LIST = [("lcons", 20), ("lof", 2), ("lapp", 6), ("lrev", 5), ("lrap", 4), ("lf
 W_MIX = W_MAP + W_SET + W_LIST
 
 
+def sweep_histories():
+    """Deterministic (seed-independent) enumeration stream: for every size n in 5..22 and insertion
+    order ascending / descending / one fixed permutation, build a tall map (set), then EVERY split key,
+    every prefix/suffix filter and partition, every single removal, and unions / merges / set algebra
+    with a short operand that overlaps it (distinct values, asymmetric mergers).  Small cases are
+    enumerated, not sampled, so that rebalancing paths (join of one binding with a tall tree, concat,
+    internalMerge, the h1 < h2 union branch) are reached in every run."""
+    out = []
+    for n in range(5, 23):
+        for order in ("asc", "desc", "perm"):
+            keys = list(range(1, n + 1))
+            if order == "desc":
+                keys.reverse()
+            elif order == "perm":
+                keys = common.Rng(1000 + n).shuffle(keys)
+            val = lambda k: (k * 7 + 3) % 100
+            small = [2, 6, n // 2 + 1, n, n + 3][: 2 + n % 3]
+            mops = [f"mins m0 m0 {k} {val(k)}" for k in keys]
+            mops += [f"mins m3 m3 {k} {50 + i}" for i, k in enumerate(small)]
+            sops = [f"sins s0 s0 {k}" for k in keys] + [f"sins s3 s3 {k}" for k in small]
+            for k in range(0, n + 2):
+                mops += [f"mspl m1 m2 m0 {k}", f"mfil m1 m0 klt {k}", f"mfil m1 m0 kge {k}",
+                         f"mpar m1 m2 m0 klt {k}", f"mrem m1 m0 {k}"]
+                sops += [f"sspl s1 s2 s0 {k}", f"sfil s1 s0 lt {k}", f"sfil s1 s0 ge {k}",
+                         f"spar s1 s2 s0 lt {k}", f"srem s1 s0 {k}"]
+            mops += ["mcun m1 m3 m0 2", "mcun m1 m3 m0 3", "mcun m1 m3 m0 0", "muni m1 m3 m0", "muni m1 m0 m3",
+                     "mcun m1 m0 m3 2", "mcun m1 m0 m3 1", "mmrg m1 m3 m0 0", "mmrg m1 m3 m0 1", "mmrg m1 m3 m0 2",
+                     "mmrg m1 m0 m3 0", "mfil m1 m0 kodd 0", "mpar m1 m2 m0 kodd 0", "mupd m1 m0 2 0 0",
+                     "mupd m1 m0 6 2 5", "mmax m0", "mmin m0", "miter m0", "mcmp m0 m3", "meq m0 m0"]
+            sops += ["suni s1 s3 s0", "suni s1 s0 s3", "sint s1 s3 s0", "sint s1 s0 s3", "sdif s1 s0 s3", "sdif s1 s3 s0",
+                     "ssub s3 s0", "ssub s0 s0", "sdis s0 s3", "sfil s1 s0 odd 0", "spar s1 s2 s0 odd 0",
+                     "smap s1 s0 0 3", "smap s1 s0 1 0", "smap s1 s0 2 4", "smax s0", "smin s0", "siter s0",
+                     "scmp s0 s3", "seq s0 s0"]
+            out.append((mops, ("sweep-map", order)))
+            out.append((sops, ("sweep-set", order)))
+    return out
+
+
 def cap_list_growth(ops, limit=300):
     """drop list ops that would let a list register grow beyond `limit` (non-tail recursion depth)."""
     spec = Spec()
@@ -1020,6 +1058,8 @@ def run(ctx):
         ops = gen_history(rng.fork(), rng.range(nops // 2, nops), mode, w)
         ops = cap_list_growth(ops)
         hist.append(ops); kinds.append((fam, mode))
+    for ops, kind in sweep_histories():
+        hist.append(ops); kinds.append(kind)
     hist = steer(hist, stats)
     models = run_model(hist)
     _, answers = run_impl(hist)
@@ -1039,6 +1079,12 @@ def run(ctx):
             src_stats["lines_compared"] += len(wl)
             if sl == wl and so["end"] == r["wasm"]["end"]:
                 src_stats["agree"] += 1
+            elif "refeq" in so["flags"] and so["end"] == r["wasm"]["end"] and not oracle(h, sl, so["end"])[0]:
+                # the program compares objects with `==` (reference equality: Set.map's `newV == v`,
+                # `l == ll`); the reference semantics may take the other, equally valid branch and build a
+                # differently shaped tree.  The property speaks about contents: the independent
+                # specification oracle (contents + invariants of every printed tree) accepted this run.
+                src_stats["agree_up_to_tree_shape"] = src_stats.get("agree_up_to_tree_shape", 0) + 1
             else:
                 src_stats["disagree"] += 1
                 i = common.first_diff(sl, wl)
@@ -1084,6 +1130,7 @@ def run(ctx):
             if key not in distinct:
                 distinct.add(key)
                 deep = any(("(N 4" in a or "(N 5" in a or "(N 6" in a) for a in r["wasm"]["lines"][:nlines]) or fam == "list"
+                stats["sweep_programs"] = stats.get("sweep_programs", 0) + (1 if str(fam).startswith("sweep") else 0)
                 if deep and nlines >= 20:
                     nontrivial += 1
                     if len(samples) < 3:
@@ -1095,6 +1142,7 @@ def run(ctx):
         "programs": len(hist), "op_histogram": opcount, "known_finding_hits_in_bulk": known_count,
         "probe_hits": probe_hits, "steered_away_ops": stats.get("steered_away", 0),
         "key_ranges": {"0": "[-6,6]", "1": "[-40,40]", "2": "wide: [-(2^30-1), 2^30-1] incl. both ends (diameter < 2^31)", "3": "[-300,300]"},
+        "sweep_programs": stats.get("sweep_programs", 0),
         "std_header": header,
         "source_eval_leg": (src_stats if src is not None else {"unavailable": stats.get("src_leg_error", "")}),
         "source_eval_leg_counts_as_violation": src_ready,
@@ -1116,7 +1164,7 @@ def run(ctx):
 
 
 PENDING = ["customizedUnion / merge / Set.union / subset / Set.map keep a fuel argument in the model; the theorems show any fuel above the operand sizes suffices and the history theorems use internally computed fuel",
-           "the reference-semantics leg (Source.eval) is recorded in evidence and becomes violation-relevant once reports/SRC.md declares the interpreter ready",
+           "reference-semantics leg (Source.eval): exact line equality with wasm, except that runs flagged `refeq` (object `==`) may differ in tree shape and are then judged by the specification oracle (contents + invariants)",
            "Tuple4 .. Tuple16 are represented by the Pair/Triple transcription (same two methods)"]
 
 def replay(ctx, path):
